@@ -8,23 +8,23 @@ HOOK_COMMITS = ["f9ac6f7", "155194a"]
 
 add("C01", "exploration",
     "runtime monitor: encode/decode round-trip oracle over generated well-formed packets (class cross product + seeded fill), recover()-guarded, independent RFC decoder as diagnostic",
-    "Held on 600k (quick) / 12M (thorough) generated Packet/Header values: every class combination of CSRC x extension kind x payload x padding, incl. blocks and payloads beyond 64 KiB.",
+    "Held on 3M (quick) / 24M (thorough) generated Packet/Header values: every class combination of CSRC x extension kind x payload x padding, incl. blocks and payloads beyond 64 KiB.",
     "Trusts the harness generator/bridge (public API only) and its equality convention (nil == empty; ExtensionProfile ignored without X).")
 add("C02", "exploration",
     "runtime monitor: recover() guard + structural invariants of accepted parses + fresh-vs-reused receiver twin (fields, len(Extensions), wire image after a follow-up SetExtension) over hostile byte-string streams",
-    "All strings <= 2 bytes and the extension-region alphabet walk exhaustively; 100k/2.5M streams of 8-32 hostile inputs through persistent receivers; inputs with exact and spare (canary) capacity.",
+    "All strings <= 2 bytes, the extension-region alphabet walk and every value of the first two octets x boundary lengths exhaustively; 100k/2.5M streams of 8-32 hostile inputs through persistent receivers; inputs with exact and spare (canary) capacity.",
     "Non-termination is only detectable through the process watchdog + pinboard; beyond the exhaustive strata inputs are generated.")
 add("C03", "exploration",
     "runtime monitor: differential against an independent RFC 3550/8285 reference encoder/decoder (grammar images incl. non-canonical layouts), re-encode stability oracle on accepted mutants, block-view oracle",
-    "Held on 500k/10M grammar images, 1M/20M mutants (every accepted one re-encoded), 300k/6M standalone block views; one open known finding (id-15 terminator, pinned by an existing test).",
+    "Held on 1.5M/15M grammar images, 2.5M/25M mutants (every accepted one re-encoded), 0.9M/9M standalone block views; one open known finding (id-15 terminator, pinned by an existing test).",
     "Trusts the reference encoder/decoder pair (cross-checked against each other on every case).")
 add("C04", "exploration",
     "runtime monitor: MarshalTo judged against Marshal() on dirty destination buffers of every length 0..size+8 (also nil, also windows with spare capacity guarded by a canary), recover()-guarded",
-    "35k/900k packets and headers x every destination length x four prior contents (about 7M calls quick).",
+    "140k/1.4M packets and headers x every destination length x four prior contents (about 27M calls quick).",
     "Marshal() is the byte reference; nothing is demanded of dst after a failed call.")
 add("C05", "exploration",
     "runtime monitor: shadow ordered-map model following returned errors + wire clause; all op sequences of length <=2 (thorough: 3) over the class alphabet exhaustively, random longer ones incl. values that share storage",
-    "Every sequence of <=2 (thorough <=3) operations over the boundary alphabet x 11 start states; 600k/15M random sequences.",
+    "Every sequence of <=2 (thorough <=3) operations over the boundary alphabet x 11 start states; 2M/20M random sequences.",
     "The model never predicts failures, it follows returned errors; a successful DelExtension may change nothing but the element list.")
 add("C06", "exploration",
     "runtime monitor: shadow model of the packet train fed by a recording payloader wrapper (12 payloaders incl. silent and odd-shaped ones); injected-clock reference for abs-send-time; Marshal/Unmarshal oracle; history re-check of earlier packets; race detector + gap-free check on a shared sequencer",
@@ -76,13 +76,13 @@ add("C17", "exploration",
     "Layouts restated in the monitor from RFC 6464 / the WebRTC extension documents.")
 add("C18", "exploration",
     "runtime monitor: integer-nanosecond reference bounds over boundary-concentrated (instant, offset, delay) triples; time.Time values with locations and monotonic readings",
-    "About 10M (quick) / 300M (thorough) triples concentrated at 64 s wraps, whole seconds, 2^-18 s field-unit boundaries, the era end, offset extremes and the largest allowed delay.",
+    "About 30M (quick) / 460M (thorough) triples concentrated at 64 s wraps, whole seconds, 2^-18 s field-unit boundaries, the era end, offset extremes and the largest allowed delay.",
     "Send instants before the NTP era end, receive instants up to 64 s after it; 1 ns conversion slack.")
 add("C19", "exploration",
     "runtime monitor: differential against an independent video-layers-allocation00 encoder/decoder over all slot subsets; fresh-vs-used receiver twin; recover()-guarded decoder fuzz",
-    "Thorough executes all 69 900 slot subsets x resolution flag; quick all subsets for <=2 streams plus 100 000 sampled; encodings beyond 255 bytes; 10k/200k invalid values; 15k/400k fuzz streams.",
+    "Thorough executes all 69 900 slot subsets x resolution flag; quick all subsets for <=2 streams plus 100 000 sampled; encodings beyond 255 bytes; 30k/300k invalid values; 60k/600k fuzz streams.",
     "Reference encoder/decoder cross-checked on every case; empty allocation only panic-checked.")
 add("C20", "exploration",
     "runtime monitor: twin (mutate one side, watch the other's snapshot) + address-range overlap monitor over full slice capacity (payload, CSRC, extension list, extension values)",
-    "150k/4.5M generated packets and headers (incl. spare-capacity slices, emptied extension lists, values decoded into used receivers) under 12 mutation kinds in both directions.",
+    "600k/6M generated packets and headers (incl. spare-capacity slices, emptied extension lists, values decoded into used receivers) under 12 mutation kinds in both directions.",
     "Extension values are reached through GetExtension only; snapshots are fields + Marshal bytes.")
